@@ -39,7 +39,9 @@ pub assume_specification<T, P> [std::option::Option::<T>::filter] (o: std::optio
     where P: FnOnce(&T) -> bool + std::marker::Destruct, T: std::marker::Destruct
     requires o is Some ==> p.requires((&o->0,)),
     ensures o is None ==> r is None, r is Some ==> r == o, o is Some ==> (r is Some <==> p.ensures((&o->0,), true));
-pub assume_specification [std::path::Path::to_path_buf] (p: &Path) -> (r: PathBuf);
+/// the owned copy of a path (uninterpreted; `to_path_buf` is a function of its argument)
+pub uninterp spec fn pathbuf_of(p: &Path) -> PathBuf;
+pub assume_specification [std::path::Path::to_path_buf] (p: &Path) -> (r: PathBuf) ensures r == pathbuf_of(p);
 pub assume_specification [str::trim] (s: &str) -> (r: &str);
 pub assume_specification [str::trim_end] (s: &str) -> (r: &str);
 pub assume_specification [str::trim_start] (s: &str) -> (r: &str);
@@ -47,3 +49,6 @@ pub assume_specification<T, F> [std::option::Option::<T>::is_some_and] (o: std::
     where F: FnOnce(T) -> bool + std::marker::Destruct
     requires o is Some ==> f.requires((o->0,)),
     ensures o is None ==> !r, o is Some ==> f.ensures((o->0,), r);
+/// R23: `format!(..)` in expression position (message text is never part of a contract)
+#[verifier::external_body]
+pub fn vx_format() -> (r: String) { String::new() }
